@@ -33,6 +33,7 @@ type Engine struct {
 	tidNames  map[int]string
 	monSorts  map[string]string // monitor ghost name -> sort
 	monIface  map[string]string // monitor ghost name -> interface short name
+	monMode   map[string]string // monitor ghost name -> mode it is defined for
 	ifaceByShort map[string]types.Type
 	specCache map[string]string
 	modPath   string
@@ -43,7 +44,7 @@ func loadEngine(repo, verif string) (*Engine, error) {
 	eng := &Engine{repo: repo, verif: verif, spkgs: map[string]*ssa.Package{}, funcs: map[string]*ssa.Function{},
 		effects: map[*ssa.Function]*Effects{}, candCache: map[string][]*ssa.Function{}, fnIDs: map[*ssa.Function]int{},
 		tidIDs: map[string]int{}, tidNames: map[int]string{}, monSorts: map[string]string{}, monIface: map[string]string{},
-		ifaceByShort: map[string]types.Type{}, specCache: map[string]string{}}
+		ifaceByShort: map[string]types.Type{}, specCache: map[string]string{}, monMode: map[string]string{}}
 	eng.modPath = modulePath(repo)
 	cfg := &packages.Config{Mode: packages.LoadAllSyntax, Dir: repo, BuildFlags: []string{"-tags=verif"}, Tests: false,
 		Env: append(os.Environ(), "GOFLAGS=-mod=mod", "GOPROXY=off", "GOSUMDB=off", "GOTOOLCHAIN=local")}
@@ -157,6 +158,7 @@ func (eng *Engine) loadMonitors() {
 				if len(fs) == 3 {
 					eng.monSorts[fs[0]] = fs[2]
 					eng.monIface[fs[0]] = fs[1]
+					eng.monMode[fs[0]] = filepath.Base(filepath.Dir(f))
 				}
 			}
 		}
@@ -190,7 +192,7 @@ func (eng *Engine) contractFor(fn *ssa.Function, mode Mode) *Contract {
 		name = strings.Replace(name, pkg+".", "", 1)
 	}
 	list := eng.cs.ByFunc[pkg+"::"+name]
-	var inlineMark *Contract
+	var inlineMark, other *Contract
 	for _, c := range list {
 		if c.Inline {
 			inlineMark = c
@@ -199,6 +201,13 @@ func (eng *Engine) contractFor(fn *ssa.Function, mode Mode) *Contract {
 		if c.Mode == mode.String() {
 			return c
 		}
+		other = c
+	}
+	if inlineMark == nil && other != nil {
+		// only a contract under the other reading exists: its write frame (proved there, and independent of the
+		// reading) is used; nothing else is known about the call
+		return &Contract{Pkg: other.Pkg, Func: other.Func, Mode: mode.String(), Modifies: other.Modifies, HasMod: other.HasMod,
+			Loops: map[int]*LoopSpec{}, File: other.File, Line: other.Line, Uses: nil, Notes: []string{"frame-only view of the " + other.Mode + "-mode contract"}}
 	}
 	return inlineMark
 }
@@ -215,17 +224,51 @@ func (eng *Engine) ifaceContract(it types.Type, method string, mode Mode) *Contr
 	if !ok || n.Obj().Pkg() == nil {
 		return nil
 	}
+	var found *Contract
+	pure := false
 	for _, c := range eng.cs.ByFunc[n.Obj().Pkg().Path()+"::"+n.Obj().Name()+"."+method] {
-		if c.Mode == mode.String() || c.Pure && len(c.Ensures) == 0 {
-			return c
+		if c.Pure {
+			pure = true
+		}
+		if c.Mode == mode.String() {
+			found = c
 		}
 	}
-	return nil
+	if found == nil && pure {
+		return &Contract{Pure: true, Mode: mode.String(), Loops: map[int]*LoopSpec{}}
+	}
+	if found != nil && pure {
+		cp := *found
+		cp.Pure = true
+		return &cp
+	}
+	return found
 }
 
 // autoInline: tiny leaf helpers are inlined without a mark.
 func (eng *Engine) autoInline(fn *ssa.Function) bool {
-	return false
+	// small loop-free, non-recursive helpers without a contract are inlined (a refactoring that extracts a
+	// helper must not need a new contract); anything bigger needs a contract or an explicit inline mark.
+	n := 0
+	for _, b := range fn.Blocks {
+		for _, s := range b.Succs {
+			if s.Dominates(b) {
+				return false // loop
+			}
+		}
+		for _, ins := range b.Instrs {
+			if _, ok := ins.(*ssa.DebugRef); ok {
+				continue
+			}
+			n++
+			if c, ok := ins.(ssa.CallInstruction); ok {
+				if callee := c.Common().StaticCallee(); callee == fn {
+					return false
+				}
+			}
+		}
+	}
+	return n <= 120
 }
 
 func (eng *Engine) findFunc(pkgPath, name string) *ssa.Function {
